@@ -166,7 +166,14 @@ BOUNDARY = [
     # generated is validated by `re` itself
     "schema.str.regex('(?i)stra\u00dfe')", "schema.str.regex('stra\u00dfe')", "schema.str.regex('(?i:\ufb01)x{2}')",
     "schema.str.regex('(?i)\u0130\u0149\u01f0')", "schema.str.regex('^[\u00df\u0130]{3}$')", "schema.str.regex('(?i)[\u00df]{2}')",
+    "schema.str.regex('(?s)a(?-s:.)b')", "schema.str.regex('(?s:a.)(?-s:.)c')", "schema.str.regex('(?s)(a.)(?-s:b.)c')",
     "schema.str.regex('(?s)a.b')", "schema.str.regex('(?m)^ab$')", "schema.str.regex('(?x) a b # comment')", "schema.str.regex('(?a)\\w{3}\\d')",
+    # fixed values that are instances of a subclass of the declared type (bool for int, user subclasses, enum members)
+    "schema.int(True)", "schema.int(False).min(0)", "schema.list([schema.int(True), ...])", "schema.dict({'a': schema.int(True)}) + schema.dict({'b': schema.int(False)})",
+    "schema.int(_IntSub(7))", "schema.str(_StrSub('ab')).len(2)", "schema.int(_IntColor.RED) | schema.none", "schema.float(_FloatSub(1.5)).precision(1)",
+    # two str refinements at once: the filler around a required substring / inside a length range comes from the declared alphabet
+    "schema.str.alphabet('ab').contains('a')", "schema.str.alphabet('ab').contains('ab').len(5)", "schema.str.alphabet('xy').contains('y').len(3, 9)",
+    "schema.str.alphabet('01').contains('10').len(2, ...)", "schema.str.alphabet('z').contains('').len(4)", "schema.str.alphabet('q').contains('qq').len(..., 6)",
     # IGNORECASE with a negated class / negated literal (F42)
     "schema.str.regex('(?i)[^a]')", "schema.str.regex('(?i)[^a-z]{3}')", "schema.str.regex('(?i:[^b])x')", "schema.str.regex('(?i)a[^a]')",
     "schema.list(schema.str.regex('(?i)[^a-y]')).len(2)",
@@ -221,8 +228,6 @@ def run(ctx):
                 infos.append((ssrc, list(pol.used)))
             except absn.Unmodelled:
                 unmodelled += 1
-            if not sat:
-                continue
             bad = None
             if outcome == "raise":
                 bad = f"fake raised {type(res).__name__}: {res}"
@@ -234,7 +239,12 @@ def run(ctx):
                 if errs:
                     bad = f"fake returned {gen.vsrc(res)}, rejected: {errs[:3]}"
             if bad:
+                # kept also when no witness was found here: the model decides satisfiability (satb) below, and a validator
+                # that rejects the witness itself must not make the schema look unsatisfiable
                 tape_failures.setdefault(si, (bad, list(pol.used), m))
+            if not sat:
+                continue
+            if bad:
                 if kinds is None:
                     kinds = classify(r, s, cache)
                 ex = f"S={ssrc}: {bad}"[:300]
